@@ -147,9 +147,9 @@ class BisectState:
             rev = peel_sha(self.repo.object_store, rev)[1].id
 
         # Write bad ref
-        bad_ref_path = os.path.join(self.repo.controldir(), "refs", "bisect", "bad")
-        with open(bad_ref_path, "wb") as f:
-            f.write(rev + b"\n")
+        # Go through the refs container rather than writing the file in place:
+        # it uses the lock protocol, so readers never see a truncated ref.
+        self.repo.refs[Ref(b"refs/bisect/bad")] = rev
 
         # Update log
         self._append_to_log(
@@ -177,11 +177,7 @@ class BisectState:
             rev = peel_sha(self.repo.object_store, rev)[1].id
 
         # Write good ref
-        good_ref_path = os.path.join(
-            self.repo.controldir(), "refs", "bisect", f"good-{rev.decode('ascii')}"
-        )
-        with open(good_ref_path, "wb") as f:
-            f.write(rev + b"\n")
+        self.repo.refs[Ref(b"refs/bisect/good-" + rev)] = rev
 
         # Update log
         self._append_to_log(
@@ -208,11 +204,7 @@ class BisectState:
 
         for rev in revs:
             rev = peel_sha(self.repo.object_store, rev)[1].id
-            skip_ref_path = os.path.join(
-                self.repo.controldir(), "refs", "bisect", f"skip-{rev.decode('ascii')}"
-            )
-            with open(skip_ref_path, "wb") as f:
-                f.write(rev + b"\n")
+            self.repo.refs[Ref(b"refs/bisect/skip-" + rev)] = rev
 
             self._append_to_log(f"git bisect skip {rev.decode('ascii')}")
 
